@@ -239,8 +239,15 @@ def run(repo: Repo, rep: Report, tier: str) -> None:
                     if r.entry.family == "optional" or (r.entry.elem or "").startswith("opt") or "Optional" in r.entry.name]
             check_rows(rep, rows, "R11.9", mod, "Optional resolution differs from `convert if not None else None`")
     rep.floor("R11.9", 30)
+    if getattr(rep, "borrowed", False):
+        return  # another property borrows main-body rules only
     from ..core import siblings as _sib4
     _sib4.check_special_primitive_mirror(repo, rep, "R11.10")
+    from ..core.report import Only as _OnlyX
+    from ..core import corpus as _corpusX
+    from . import c13 as _c13x, c02 as _c02x
+    _c13x._helper_names(repo, _OnlyX(rep, {"R13.9"}), _corpusX.explore_all(repo, tier))
+    _c02x.run(repo, _OnlyX(rep, {"R02.1"}), tier)
 
 def _literal(repo: Repo, rep: Report, tier: str) -> None:
     c = corpus_mod.explore_all(repo, tier)
@@ -330,3 +337,6 @@ def _pack_union(repo: Repo, rep: Report, tier: str) -> None:
 _ADD17 = ' R11.10: pack_special_typing_primitive and unpack_special_typing_primitive share one decision skeleton (same cases, same order, same tests).'
 EXPLANATION += _ADD17
 LEVEL_TEXT += _ADD17
+_ADD22 = ' Borrowed: R13.9, R02.1 (the NoneType / scalar packers that union members are built from).'
+EXPLANATION += _ADD22
+LEVEL_TEXT += _ADD22
